@@ -4,6 +4,8 @@ from __future__ import annotations
 
 import itertools
 
+import numpy as np
+
 from mc import control, gradlab
 from mc.domains import HEXSYM24, HEXSYM_GEN4, contact, lattice_cells, sub_assemblies
 
@@ -13,7 +15,7 @@ DESIGN_REF = "DESIGN.md 5 C01"
 RULE = (
     "case = (sub-assembly of <=k lattice cells, corner numbering per block from the 24 rotations, chop placement: every "
     "(block, direction) in {none, count 2, count 3} (+ a computed-count chop, + a two-section chop with unequal counts)), executed by assemble+write on the real "
-    "library, and by a second write() of the same mesh when the first one was refused for a conflict; expected verdict from "
+    "library, by a second write() of the same mesh when the first one was refused for a conflict, and (size-based chop) by a write() after the written mesh was stretched x2; expected verdict from "
     "the edge-family union-find model. non-trivial = the blocks share at least one edge "
     "and at least one direction is chopped"
 )
@@ -25,6 +27,7 @@ SINGLE_OUTCOME_OK = False
 
 VALUES = [None, {"count": 2}, {"count": 3}]
 COMPUTED = {"start_size": 0.3, "c2c_expansion": 1.0}  # 1/0.3 = 3.33 -> 4 cells
+RESIZE = {"start_size": 0.34, "c2c_expansion": 1.0}  # 1/0.34 = 2.94 -> 3 cells; on an edge of length 2: 5.88 -> 6 cells
 
 
 def worker_init():
@@ -112,6 +115,11 @@ def cases(tier, seed):
     for c in out[2 :: (5 if q else 3)]:
         if "computed" not in c and 2 in c["placement"]:
             extra.append(dict(c, multi=len(c["placement"]) - 1 - c["placement"][::-1].index(2)))
+    # resize variant: one direction chopped "count 3" asks for a cell size that gives 3 cells instead; after a successful
+    # write the assembled mesh is stretched x2 along that direction and written again (the size now gives 6 cells)
+    for c in out[1 :: (5 if q else 3)]:
+        if 2 in c["placement"]:
+            extra.append(dict(c, resize=c["placement"].index(2)))
     out += extra
     out.sort(key=lambda c: (len(c["cells"]), sum(1 for x in c["placement"] if x)))
     return out
@@ -129,6 +137,8 @@ def script_of(case):
             kw = dict(VALUES[val])
             if case.get("computed") == idx:
                 kw = dict(COMPUTED)
+            if case.get("resize") == idx:
+                kw = dict(RESIZE)
             if case.get("multi") == idx:
                 chops.append([idx // 3, idx % 3, {"length_ratio": 0.4, "count": 1}])
                 kw = {"length_ratio": 0.6, "count": 2}
@@ -143,18 +153,8 @@ def script_of(case):
     return script
 
 
-def run_case(case):
-    script = script_of(case)
-    verdict, fam_counts, fam = gradlab.expected(script)
-    mesh, _ = gradlab.build_mesh(script)
-    kind, payload = gradlab.write_and_observe(mesh)
-    coords = {k: case[k] for k in ("cells", "numbering", "placement")}
-    coords["complete"] = bool(case.get("complete"))
-    if "computed" in case:
-        coords["computed"] = case["computed"]
-    if "multi" in case:
-        coords["multi"] = case["multi"]
-    coords["verdict"] = verdict
+def judge(case, coords, verdict, fam_counts, fam, kind, payload, mesh, tag="", scale=None):
+    """oracle for one write() of a mesh whose chops have the given model verdict"""
     violations = []
     if kind.startswith("livelock"):
         # termination is C02's clause; here it only means "no file"
@@ -168,7 +168,7 @@ def run_case(case):
             if len(counts) > 1:
                 violations.append(
                     {
-                        "clause": "i-shared-edge-count-mismatch",
+                        "clause": "i-shared-edge-count-mismatch" + tag,
                         "coords": coords,
                         "detail": f"vertices {sorted(key)}: (block, axis, count) = {lst}; blockMesh rejects inconsistent number of points on a shared edge",
                     }
@@ -178,18 +178,19 @@ def run_case(case):
             if blk["kind"] == "edgeGrading":
                 for k, item in enumerate(blk["grading"]):
                     if len(item) > 1 and int(round(sum(s[1] for s in item))) != blk["counts"][k // 4]:
-                        violations.append({"clause": "i-section-counts-vs-block-count", "coords": coords, "detail": f"block {bi} edge {k}: {item} vs {blk['counts']}"})
+                        violations.append({"clause": "i-section-counts-vs-block-count" + tag, "coords": coords, "detail": f"block {bi} edge {k}: {item} vs {blk['counts']}"})
         if "conflict" in verdict:
             violations.append(
                 {
-                    "clause": "ii-conflict-written-silently",
+                    "clause": "ii-conflict-written-silently" + tag,
                     "coords": coords,
                     "detail": "two chops demand different counts in one edge family, yet a dictionary was written",
                 }
             )
         if verdict == "ok":
             # every direction carries its family's count
-            pos = [tuple(int(round(x)) for x in v["pos"]) for v in d["vertices"]]
+            sc = scale or (1, 1, 1)
+            pos = [tuple(int(round(x / sc[i])) for i, x in enumerate(v["pos"])) for v in d["vertices"]]
             cells = [tuple(c) for c in case["cells"]]
             for blk in d["blocks"]:
                 ids = [pos[i] for i in blk["v"]]
@@ -199,17 +200,17 @@ def run_case(case):
                     g = [i for i in range(3) if ids[0][i] != ids[end][i]][0]
                     want = fam_counts[fam.find((b, g))]
                     if blk["counts"][a] != want:
-                        violations.append({"clause": "iii-count-not-family-count", "coords": coords, "detail": f"cell {cell} global direction {g}: written {blk['counts'][a]}, family count {want}"})
+                        violations.append({"clause": "iii-count-not-family-count" + tag, "coords": coords, "detail": f"cell {cell} global direction {g}: written {blk['counts'][a]}, family count {want}"})
     else:
         outcome = payload
         if verdict == "ok":
-            violations.append({"clause": "iii-consistent-but-rejected", "coords": coords, "detail": f"consistent and complete chops, writing raised {payload}"})
+            violations.append({"clause": "iii-consistent-but-rejected" + tag, "coords": coords, "detail": f"consistent and complete chops, writing raised {payload}"})
         elif verdict == "conflict" and payload != "InconsistentGradingsError":
-            violations.append({"clause": "ii-conflict-wrong-error", "coords": coords, "detail": f"conflicting chops, writing raised {payload}"})
+            violations.append({"clause": "ii-conflict-wrong-error" + tag, "coords": coords, "detail": f"conflicting chops, writing raised {payload}"})
         elif verdict == "conflict+undefined" and payload not in ("InconsistentGradingsError", "UndefinedGradingsError"):
-            violations.append({"clause": "ii-conflict-wrong-error", "coords": coords, "detail": f"conflicting chops, writing raised {payload}"})
+            violations.append({"clause": "ii-conflict-wrong-error" + tag, "coords": coords, "detail": f"conflicting chops, writing raised {payload}"})
         if "partial" in kind:
-            violations.append({"clause": "partial-file", "coords": coords, "detail": "output modified although writing failed"})
+            violations.append({"clause": "partial-file" + tag, "coords": coords, "detail": "output modified although writing failed"})
         if "conflict" in verdict:
             # the user's obvious next step is to call write() again on the same mesh: "whenever writing succeeds" covers
             # that call too
@@ -219,11 +220,44 @@ def run_case(case):
                 worst = [lst for lst in by_edge.values() if len({c for _, _, c in lst}) > 1]
                 violations.append(
                     {
-                        "clause": "ii-conflict-written-on-retry",
+                        "clause": "ii-conflict-written-on-retry" + tag,
                         "coords": coords,
                         "detail": f"the first write() raised {payload}, a second write() of the same mesh produced a dictionary; edges with differing counts: {worst[:1]}",
                     }
                 )
             outcome += "|retry:" + (payload2 if not kind2.startswith("ok") else "written")
+    return violations, outcome
+
+
+def run_case(case):
+    script = script_of(case)
+    verdict, fam_counts, fam = gradlab.expected(script)
+    mesh, _ = gradlab.build_mesh(script)
+    kind, payload = gradlab.write_and_observe(mesh)
+    coords = {k: case[k] for k in ("cells", "numbering", "placement")}
+    coords["complete"] = bool(case.get("complete"))
+    for k in ("computed", "multi", "resize"):
+        if k in case:
+            coords[k] = case[k]
+    coords["verdict"] = verdict
+    violations, outcome = judge(case, coords, verdict, fam_counts, fam, kind, payload, mesh)
+    execs = 1
+    if "resize" in case and kind.startswith("ok"):
+        # the written mesh is stretched x2 along the direction whose chop gives a cell size, and written again: that
+        # chop now asks for 6 cells, every count-based chop for what it asked before
+        g = case["resize"] % 3
+        for v in mesh.vertices:
+            p = np.array(v.position, dtype=float)
+            p[g] *= 2.0
+            v.move_to(p)
+        script2 = dict(script, chops=[[b, gg, ({"count": 6} if kw == RESIZE else kw)] for b, gg, kw in script["chops"]])
+        verdict2, fam_counts2, fam2 = gradlab.expected(script2)
+        kind2, payload2 = gradlab.write_and_observe(mesh)
+        scale = [1.0, 1.0, 1.0]
+        scale[g] = 2.0
+        v2, outcome2 = judge(case, dict(coords, verdict2=verdict2), verdict2, fam_counts2, fam2, kind2, payload2, mesh, tag="-after-resize", scale=scale)
+        violations += v2
+        outcome += f"|resized:{verdict2}|{outcome2}"
+        execs += 1
     nontrivial = shares_edge([tuple(c) for c in case["cells"]]) and any(case["placement"])
-    return {"violations": violations, "outcome": f"{verdict}|{outcome}", "nontrivial": nontrivial, "execs": 1}
+    return {"violations": violations, "outcome": f"{verdict}|{outcome}", "nontrivial": nontrivial, "execs": execs}
